@@ -22,11 +22,11 @@ from .model import IdMap, build, project, canon, diff
 FAMILIES = {
     # name: (quick SampleMod, thorough SampleMod)
     "mg3": (1, 1), "mg4": (40, 4), "smg3": (1, 1), "crg2": (1, 1), "crg3": (60, 6), "scrg2": (1, 1),
-    "prismr": (1, 1), "prismsr": (3, 1), "cuber": (1, 1), "twop": (1, 1), "exch": (1, 1), "exchs": (1, 1),
+    "prismr": (1, 1), "prismsr": (3, 1), "cuber": (1, 1), "twop": (1, 1), "exch": (1, 1), "exchs": (1, 1), "twoc": (1, 1), "allylr": (1, 1), "elcyc": (1, 1),
     "star5": (30, 3), "star5r": (60, 10), "star4lp": (10, 1), "lp2": (1, 1), "ethener": (1, 1), "nopar": (1, 1), "ethene": (10, 1), "two": (1, 1),
     "tbp": (1, 1), "oct": (1, 1), "sn2": (10, 1),
 }
-QUICK_FAMS = ["mg3", "mg4", "smg3", "crg2", "crg3", "scrg2", "prismr", "prismsr", "cuber", "exch", "exchs", "star5", "star4lp", "lp2", "ethener", "nopar", "ethene", "two", "twop", "tbp", "oct", "sn2"]
+QUICK_FAMS = ["mg3", "mg4", "smg3", "crg2", "crg3", "scrg2", "prismr", "prismsr", "cuber", "exch", "exchs", "twoc", "allylr", "elcyc", "star5", "star4lp", "lp2", "ethener", "nopar", "ethene", "two", "twop", "tbp", "oct", "sn2"]
 THOROUGH_FAMS = list(FAMILIES)
 LABEL_FAMS = {"mg3", "star4lp", "lp2", "two", "nopar"}
 PAIR_CAP = {"quick": 3000, "thorough": 400000}
@@ -88,13 +88,14 @@ def run_family(args):
         rnd.shuffle(keep_iso)
         rnd.shuffle(rest)
         pairs = keep_iso[: cap // 2] + rest[: cap - min(len(keep_iso), cap // 2)]
-    n_ids = 9
+    n_ids = 12
     poolA = rnd.sample(range(-60, 200), n_ids)
     if 0 not in poolA:
         poolA[rnd.randrange(5)] = 0          # identifier 0 is legitimate and falsy
     if -1 not in poolA:
         poolA[[k for k in range(6) if poolA[k] != 0][rnd.randrange(5)]] = -1     # and -1 is a favourite "no atom" sentinel
     poolB = [x + 1000 for x in rnd.sample(range(-60, 5000), n_ids)]
+    # several spellings of the second member of a pair (insertion / registration order matters to some defects)
     idA = IdMap({k + 1: poolA[k] for k in range(n_ids)})
     idB = IdMap({k + 1: poolB[k] for k in range(n_ids)})
     fails = []
@@ -305,8 +306,8 @@ PROP_TEXT = {
 
 
 NEED = {"C01": ("eq",), "C02": ("eq",), "C03": ("hash",), "C05": ("enum",), "C06": ("mirror",), "C16": ("hash",)}
-STEREO_FAMS = {"twop", "ethener", "nopar", "smg3", "scrg2", "star5", "star5r", "star4lp", "lp2", "ethener", "nopar", "ethene", "two", "tbp", "oct", "sn2"}
-REACTION_FAMS = {"exch", "exchs", "ethener", "crg2", "crg3", "scrg2", "star5r", "sn2", "prismr", "prismsr", "cuber"}
+STEREO_FAMS = {"elcyc", "allylr", "twoc", "twop", "ethener", "nopar", "smg3", "scrg2", "star5", "star5r", "star4lp", "lp2", "ethener", "nopar", "ethene", "two", "tbp", "oct", "sn2"}
+REACTION_FAMS = {"elcyc", "allylr", "twoc", "exch", "exchs", "ethener", "crg2", "crg3", "scrg2", "star5r", "sn2", "prismr", "prismsr", "cuber"}
 
 
 def run_families(tier, prop):
